@@ -121,6 +121,7 @@ struct MacroDef {
     arms: Vec<MacroArm>,
     simple: bool,
     raw: String,
+    general: Option<Vec<GenArm>>,
 }
 
 struct Ctx {
@@ -130,7 +131,7 @@ struct Ctx {
 
 fn parse_macro_rules(ts: TokenStream) -> MacroDef {
     // ( pattern ) => { body } ; ...
-    let mut def = MacroDef { arms: vec![], simple: true, raw: compact(&ts.to_string()) };
+    let mut def = MacroDef { arms: vec![], simple: true, raw: compact(&ts.to_string()), general: parse_general_arms(ts.clone()) };
     let tts: Vec<TokenTree> = ts.into_iter().collect();
     let mut i = 0;
     while i < tts.len() {
@@ -196,6 +197,347 @@ fn parse_macro_rules(ts: TokenStream) -> MacroDef {
         def.arms.push(MacroArm { params, body: body.stream() });
     }
     def
+}
+
+// ------------------------------------------------------------------ general macro-by-example
+// Used when the arity-selected all-`expr` fast path does not apply: matchers with fragments of any kind, literal tokens,
+// nested groups and `$( … ) sep rep` repetitions; the first arm that matches the whole input is transcribed.
+#[derive(Clone, Debug)]
+enum Mt {
+    Tok(TokenTree),
+    Group(Delimiter, Vec<Mt>),
+    Var(String, String),
+    Rep(Vec<Mt>, Option<TokenTree>, char),
+}
+
+#[derive(Clone, Debug)]
+enum Bind {
+    Leaf(TokenStream),
+    Seq(Vec<BTreeMap<String, Bind>>),
+}
+
+#[derive(Clone)]
+struct GenArm {
+    matcher: Vec<Mt>,
+    body: TokenStream,
+}
+
+fn parse_matcher(ts: TokenStream) -> Option<Vec<Mt>> {
+    let tts: Vec<TokenTree> = ts.into_iter().collect();
+    let mut out = vec![];
+    let mut i = 0;
+    while i < tts.len() {
+        match &tts[i] {
+            TokenTree::Punct(p) if p.as_char() == '$' => match tts.get(i + 1) {
+                Some(TokenTree::Ident(name)) => {
+                    // $name:frag
+                    match (tts.get(i + 2), tts.get(i + 3)) {
+                        (Some(TokenTree::Punct(c)), Some(TokenTree::Ident(frag))) if c.as_char() == ':' => {
+                            out.push(Mt::Var(name.to_string(), frag.to_string()));
+                            i += 4;
+                        }
+                        _ => return None,
+                    }
+                }
+                Some(TokenTree::Group(g)) if g.delimiter() == Delimiter::Parenthesis => {
+                    let inner = parse_matcher(g.stream())?;
+                    // optional separator, then the repetition operator
+                    let mut k = i + 2;
+                    let mut sep = None;
+                    let is_op = |t: Option<&TokenTree>| matches!(t, Some(TokenTree::Punct(p)) if matches!(p.as_char(), '*' | '+' | '?'));
+                    if !is_op(tts.get(k)) || (is_op(tts.get(k)) && is_op(tts.get(k + 1)) && !matches!(tts.get(k), Some(TokenTree::Punct(p)) if p.as_char() == '?')) {
+                        if !is_op(tts.get(k)) {
+                            sep = tts.get(k).cloned();
+                            k += 1;
+                        }
+                    }
+                    let op = match tts.get(k) {
+                        Some(TokenTree::Punct(p)) if matches!(p.as_char(), '*' | '+' | '?') => p.as_char(),
+                        _ => return None,
+                    };
+                    out.push(Mt::Rep(inner, sep, op));
+                    i = k + 1;
+                }
+                _ => return None,
+            },
+            TokenTree::Group(g) => {
+                out.push(Mt::Group(g.delimiter(), parse_matcher(g.stream())?));
+                i += 1;
+            }
+            t => {
+                out.push(Mt::Tok(t.clone()));
+                i += 1;
+            }
+        }
+    }
+    Some(out)
+}
+
+fn parse_general_arms(ts: TokenStream) -> Option<Vec<GenArm>> {
+    let tts: Vec<TokenTree> = ts.into_iter().collect();
+    let mut arms = vec![];
+    let mut i = 0;
+    while i < tts.len() {
+        let pat = match &tts[i] {
+            TokenTree::Group(g) => g.clone(),
+            _ => return None,
+        };
+        match (tts.get(i + 1), tts.get(i + 2)) {
+            (Some(TokenTree::Punct(a)), Some(TokenTree::Punct(b))) if a.as_char() == '=' && b.as_char() == '>' => {}
+            _ => return None,
+        }
+        let body = match tts.get(i + 3) {
+            Some(TokenTree::Group(g)) => g.clone(),
+            _ => return None,
+        };
+        i += 4;
+        if let Some(TokenTree::Punct(p)) = tts.get(i) {
+            if p.as_char() == ';' {
+                i += 1;
+            }
+        }
+        arms.push(GenArm { matcher: parse_matcher(pat.stream())?, body: body.stream() });
+    }
+    Some(arms)
+}
+
+fn tok_eq(a: &TokenTree, b: &TokenTree) -> bool {
+    match (a, b) {
+        (TokenTree::Punct(x), TokenTree::Punct(y)) => x.as_char() == y.as_char(),
+        (TokenTree::Ident(x), TokenTree::Ident(y)) => x == y,
+        (TokenTree::Literal(x), TokenTree::Literal(y)) => x.to_string() == y.to_string(),
+        _ => false,
+    }
+}
+
+fn parse_frag(frag: &str, input: syn::parse::ParseStream) -> syn::Result<TokenStream> {
+    use syn::ext::IdentExt;
+    Ok(match frag {
+        "expr" => input.parse::<syn::Expr>()?.to_token_stream(),
+        "ty" => input.parse::<syn::Type>()?.to_token_stream(),
+        "ident" => input.call(syn::Ident::parse_any)?.to_token_stream(),
+        "path" => input.parse::<syn::Path>()?.to_token_stream(),
+        "pat" => syn::Pat::parse_multi_with_leading_vert(input)?.to_token_stream(),
+        "pat_param" => syn::Pat::parse_single(input)?.to_token_stream(),
+        "literal" => {
+            let neg: Option<Token![-]> = input.parse()?;
+            let l: syn::Lit = input.parse()?;
+            let mut t = TokenStream::new();
+            neg.to_tokens(&mut t);
+            l.to_tokens(&mut t);
+            t
+        }
+        "tt" => input.parse::<TokenTree>()?.to_token_stream(),
+        "meta" => input.parse::<syn::Meta>()?.to_token_stream(),
+        "block" => input.parse::<syn::Block>()?.to_token_stream(),
+        "item" => input.parse::<syn::Item>()?.to_token_stream(),
+        "stmt" => input.parse::<syn::Stmt>()?.to_token_stream(),
+        "vis" => input.parse::<syn::Visibility>()?.to_token_stream(),
+        "lifetime" => input.parse::<syn::Lifetime>()?.to_token_stream(),
+        _ => return Err(input.error("unknown fragment")),
+    })
+}
+
+fn match_seq(ms: &[Mt], input: syn::parse::ParseStream, b: &mut BTreeMap<String, Bind>) -> syn::Result<()> {
+    use syn::parse::discouraged::Speculative;
+    for (idx, m) in ms.iter().enumerate() {
+        match m {
+            Mt::Tok(t) => {
+                let got: TokenTree = input.parse()?;
+                if !tok_eq(t, &got) {
+                    return Err(syn::Error::new(got.span(), "token mismatch"));
+                }
+            }
+            Mt::Group(d, inner) => {
+                let got: TokenTree = input.parse()?;
+                match got {
+                    TokenTree::Group(g) if g.delimiter() == *d => {
+                        let mut bb = BTreeMap::new();
+                        syn::parse::Parser::parse2(
+                            |i2: syn::parse::ParseStream| {
+                                match_seq(inner, i2, &mut bb)?;
+                                if !i2.is_empty() {
+                                    return Err(i2.error("trailing tokens"));
+                                }
+                                Ok(())
+                            },
+                            g.stream(),
+                        )?;
+                        b.extend(bb);
+                    }
+                    other => return Err(syn::Error::new(other.span(), "group mismatch")),
+                }
+            }
+            Mt::Var(name, frag) => {
+                let t = parse_frag(frag, input)?;
+                b.insert(name.clone(), Bind::Leaf(t));
+            }
+            Mt::Rep(inner, sep, op) => {
+                let mut rounds: Vec<BTreeMap<String, Bind>> = vec![];
+                loop {
+                    if *op == '?' && rounds.len() == 1 {
+                        break;
+                    }
+                    if input.is_empty() {
+                        break;
+                    }
+                    let fork = input.fork();
+                    if !rounds.is_empty() {
+                        if let Some(sp) = sep {
+                            match fork.parse::<TokenTree>() {
+                                Ok(got) if tok_eq(sp, &got) => {}
+                                _ => break,
+                            }
+                        }
+                    }
+                    let mut bb = BTreeMap::new();
+                    if match_seq(inner, &fork, &mut bb).is_err() {
+                        break;
+                    }
+                    // the rest of the matcher must still be able to match: a one-round look-ahead is enough for the
+                    // macros of one crate, and a wrong guess only makes this arm fail (never a wrong expansion)
+                    let _ = idx;
+                    input.advance_to(&fork);
+                    rounds.push(bb);
+                }
+                if *op == '+' && rounds.is_empty() {
+                    return Err(input.error("repetition needs one round"));
+                }
+                // every variable of the repetition is bound (to an empty sequence when there was no round)
+                let mut names = vec![];
+                collect_vars(inner, &mut names);
+                for n in names {
+                    b.insert(n, Bind::Seq(rounds.clone()));
+                }
+            }
+        }
+    }
+    Ok(())
+}
+
+fn collect_vars(ms: &[Mt], out: &mut Vec<String>) {
+    for m in ms {
+        match m {
+            Mt::Var(n, _) => out.push(n.clone()),
+            Mt::Group(_, i) | Mt::Rep(i, _, _) => collect_vars(i, out),
+            Mt::Tok(_) => {}
+        }
+    }
+}
+
+fn transcribe(body: TokenStream, b: &BTreeMap<String, Bind>) -> Option<TokenStream> {
+    let tts: Vec<TokenTree> = body.into_iter().collect();
+    let mut out = TokenStream::new();
+    let mut i = 0;
+    while i < tts.len() {
+        match &tts[i] {
+            TokenTree::Punct(p) if p.as_char() == '$' => match tts.get(i + 1) {
+                Some(TokenTree::Ident(id)) => {
+                    let name = id.to_string();
+                    if name == "crate" {
+                        out.extend(std::iter::once(TokenTree::Ident(proc_macro2::Ident::new("crate", id.span()))));
+                    } else {
+                        match b.get(&name) {
+                            Some(Bind::Leaf(t)) => {
+                                out.extend(std::iter::once(TokenTree::Group(Group::new(Delimiter::None, t.clone()))));
+                            }
+                            _ => return None,
+                        }
+                    }
+                    i += 2;
+                }
+                Some(TokenTree::Group(g)) if g.delimiter() == Delimiter::Parenthesis => {
+                    let mut k = i + 2;
+                    let mut sep: Option<TokenTree> = None;
+                    let is_op = |t: Option<&TokenTree>| matches!(t, Some(TokenTree::Punct(p)) if matches!(p.as_char(), '*' | '+' | '?'));
+                    if !is_op(tts.get(k)) {
+                        sep = tts.get(k).cloned();
+                        k += 1;
+                    }
+                    if !is_op(tts.get(k)) {
+                        return None;
+                    }
+                    // the sequence variables used inside drive the repetition
+                    let mut used = vec![];
+                    vars_used(g.stream(), &mut used);
+                    let mut rounds: Option<&Vec<BTreeMap<String, Bind>>> = None;
+                    for u in &used {
+                        if let Some(Bind::Seq(r)) = b.get(u) {
+                            rounds = Some(r);
+                            break;
+                        }
+                    }
+                    let rounds = rounds?;
+                    for (ri, r) in rounds.iter().enumerate() {
+                        if ri > 0 {
+                            if let Some(sp) = &sep {
+                                out.extend(std::iter::once(sp.clone()));
+                            }
+                        }
+                        let mut bb = b.clone();
+                        for (k2, v2) in r {
+                            bb.insert(k2.clone(), v2.clone());
+                        }
+                        out.extend(transcribe(g.stream(), &bb)?);
+                    }
+                    i = k + 1;
+                }
+                _ => {
+                    out.extend(std::iter::once(tts[i].clone()));
+                    i += 1;
+                }
+            },
+            TokenTree::Group(g) => {
+                let mut ng = Group::new(g.delimiter(), transcribe(g.stream(), b)?);
+                ng.set_span(g.span());
+                out.extend(std::iter::once(TokenTree::Group(ng)));
+                i += 1;
+            }
+            t => {
+                out.extend(std::iter::once(t.clone()));
+                i += 1;
+            }
+        }
+    }
+    Some(out)
+}
+
+fn vars_used(ts: TokenStream, out: &mut Vec<String>) {
+    let tts: Vec<TokenTree> = ts.into_iter().collect();
+    for (i, t) in tts.iter().enumerate() {
+        match t {
+            TokenTree::Punct(p) if p.as_char() == '$' => {
+                if let Some(TokenTree::Ident(id)) = tts.get(i + 1) {
+                    out.push(id.to_string());
+                }
+            }
+            TokenTree::Group(g) => vars_used(g.stream(), out),
+            _ => {}
+        }
+    }
+}
+
+/// Expansion of a call of one of the crate's own macros by the general engine; None when no arm matches.
+fn expand_general(def: &MacroDef, tokens: TokenStream) -> Option<TokenStream> {
+    let arms = def.general.as_ref()?;
+    for arm in arms {
+        let mut b = BTreeMap::new();
+        let ok = syn::parse::Parser::parse2(
+            |input: syn::parse::ParseStream| {
+                match_seq(&arm.matcher, input, &mut b)?;
+                if !input.is_empty() {
+                    return Err(input.error("trailing tokens"));
+                }
+                Ok(())
+            },
+            tokens.clone(),
+        )
+        .is_ok();
+        if ok {
+            return transcribe(arm.body.clone(), &b);
+        }
+    }
+    None
 }
 
 fn substitute(body: TokenStream, map: &BTreeMap<String, TokenStream>) -> TokenStream {
@@ -457,6 +799,30 @@ fn macro_j(m: &syn::Macro, attrs: &[syn::Attribute], cx: &mut Ctx) -> J {
                     }
                 }
             }
+            if cx.depth < 16 {
+                if let Some(body) = expand_general(&def, m.tokens.clone()) {
+                    // an expression, or a sequence of statements (exported as a block)
+                    let ej = if let Ok(e) = syn::parse2::<syn::Expr>(body.clone()) {
+                        cx.depth += 1;
+                        let r = expr_j(&e, cx);
+                        cx.depth -= 1;
+                        Some(r)
+                    } else if let Ok(b) = syn::parse2::<syn::Block>(TokenTree::Group(Group::new(Delimiter::Brace, body.clone())).into()) {
+                        cx.depth += 1;
+                        let r = block_j(&b, cx);
+                        cx.depth -= 1;
+                        Some(r)
+                    } else {
+                        None
+                    };
+                    if let Some(ej) = ej {
+                        v.push(("local", J::Bool(true)));
+                        v.push(("general", J::Bool(true)));
+                        v.push(("expanded", ej));
+                        return obj("macro", l, v);
+                    }
+                }
+            }
             v.push(("local", J::Bool(true)));
             v.push(("raw", s(compact(&m.tokens.to_string()))));
             return obj("macro", l, v);
@@ -687,6 +1053,41 @@ fn use_flat(t: &syn::UseTree, prefix: &mut Vec<String>, out: &mut Vec<J>) {
     }
 }
 
+/// Items of a module; a call of one of the crate's own macros in item position is followed by the items it expands to.
+fn items_j(items: &[syn::Item], cx: &mut Ctx) -> Vec<J> {
+    let mut out = vec![];
+    for it in items {
+        out.push(item_j(it, cx));
+        if let syn::Item::Macro(m) = it {
+            let name = m.mac.path.segments.last().map(|x| x.ident.to_string()).unwrap_or_default();
+            if name != "macro_rules" && m.mac.path.segments.len() == 1 && cx.depth < 16 {
+                if let Some(def) = cx.macros.get(&name).cloned() {
+                    if let Some(body) = expand_general(&def, m.mac.tokens.clone()) {
+                        if let Ok(f) = syn::parse2::<syn::File>(body) {
+                            cx.depth += 1;
+                            let sub = items_j(&f.items, cx);
+                            cx.depth -= 1;
+                            for mut j in sub {
+                                if let J::Obj(ref mut v) = j {
+                                    v.push(("from_macro", s(&name)));
+                                    // positions inside a macro body are those of the definition: report the call site
+                                    for kv in v.iter_mut() {
+                                        if kv.0 == "l" {
+                                            kv.1 = line(it);
+                                        }
+                                    }
+                                }
+                                out.push(j);
+                            }
+                        }
+                    }
+                }
+            }
+        }
+    }
+    out
+}
+
 fn item_j(it: &syn::Item, cx: &mut Ctx) -> J {
     let l = line(it);
     match it {
@@ -797,7 +1198,7 @@ fn item_j(it: &syn::Item, cx: &mut Ctx) -> J {
             )
         }
         syn::Item::Mod(m) => {
-            let inline = m.content.as_ref().map(|(_, its)| J::Arr(its.iter().map(|i| item_j(i, cx)).collect()));
+            let inline = m.content.as_ref().map(|(_, its)| J::Arr(items_j(its, cx)));
             obj(
                 "mod",
                 l,
@@ -987,7 +1388,7 @@ fn main() {
     let mut cx = Ctx { macros, depth: 0 };
     let mut fj = vec![];
     for f in files.iter().chain(extra.iter()) {
-        let items: Vec<J> = f.ast.items.iter().map(|i| item_j(i, &mut cx)).collect();
+        let items: Vec<J> = items_j(&f.ast.items, &mut cx);
         fj.push(J::Obj(vec![
             ("path", s(f.path.to_string_lossy())),
             ("module", J::Arr(f.module.iter().map(s).collect())),
